@@ -6,13 +6,13 @@ ID = "C08"
 PROPERTIES_V = ["theories/Properties/C08.v"]
 MAKE_TARGETS = ["theories/Properties/C08.vo", "theories/Proofs/GenAgreeTree.vo", "theories/Proofs/GenAgreeSiblings.vo", "theories/Model/BridgeCases.vo"]
 HARNESS = "bridge"
-HARNESS_ARGS = ["-prop", "c08"]
+HARNESS_ARGS = ["-prop", "c08", "-par", "4"]
 CASES_IMPORTS = bc.IMPORTS
 CASE_TYPE = "bcase"
 CORR = "corr"
 SPEC = "spec_c08"
 SHARD = 4
-RULE = ('random bridge histories with restarts and reorgs followed by fresh deposits; at the end EVERY recorded root x EVERY covered index is queried (GetProof) and verified with the real CalculateRoot and, independently, with the Gallina Keccak; non-trivial = a (root, index) pair with index < root index (historical root or interior leaf); distinct = distinct (case, root, index)')
+RULE = ('random bridge histories with restarts and reorgs followed by fresh deposits, a directed history of equal deposits on positions of the same parity, two directed histories whose reorganised deposit repeats content lying under surviving roots; 4 cases run concurrently in one process (own database each), as the syncers of a node do; at the end EVERY recorded root x EVERY covered index is queried (GetProof) and verified with the real CalculateRoot and, independently, with the Gallina Keccak; non-trivial = a (root, index) pair with index < root index (historical root or interior leaf); distinct = distinct (case, root, index)')
 ASSUMPTIONS = ["deposit counts on chain are consecutive from 0 (the contract guarantees it)",
                "Keccak-256 modelled as an injective node function in the theorems that read the stored nodes (restart)",
                "the EVM/Solidity side is represented by a hand transcription of DepositContractBase (Model/Contracts.v)"]
